@@ -47,3 +47,30 @@ Print Assumptions C15_block_agop_entry.
 
 Example C15_example : xmat 2 (basis 1 3) [[1; 2]; [3; 4]; [5; 6]]%R = [3; 4]%R.
 Proof. cbn. f_equal; [lra|f_equal; lra]. Qed.
+
+(* ---------- the fast path as the code computes it = the dense kernel on the one-hot rows (models re-translated from the source: harness/catops.py) ---------- *)
+Require Import XV.Real.CatFast.
+(* For ANY numerical block, any number of categorical groups with any numbers of levels, hot indices a_g / b_g, and a transform that does not mix groups
+   (given block-wise: numerical block rows `nrows`, per group the rows of its block = the transformed identity codes): numerical squared distance plus the sum of
+   the per-group table entries, then root / power / scaling / exp, EQUALS the library's dense L2 kernel with the block-diagonal full transform evaluated on the
+   one-hot expanded rows. *)
+Theorem C15_fast_l2_is_the_dense_kernel_on_onehot_rows : forall (dn : nat) (nrows : list (list R)) (L q : R) (xn zn : list R) (gs : list group),
+  length xn = length nrows -> length zn = length nrows -> Forall (fun r => length r = dn) nrows -> Forall group_ok gs ->
+  let blocks := (nrows, dn) :: map gblock gs in
+  fast_l2 (TFull dn nrows) L q xn zn gs =
+  laplace_l2 (TFull (total_dout blocks) (blockdiag blocks)) L q (xn ++ concat (map onehot_a gs)) (zn ++ concat (map onehot_b gs)).
+Proof. exact fast_l2_is_dense_kernel_on_onehot_rows. Qed.
+Theorem C15_fast_product_is_the_dense_kernel : forall tn L q xn zn gs, (0 < q)%R -> length (transform tn xn) = length (transform tn zn) -> Forall group_ok gs ->
+  fast_product tn L q xn zn gs = laplace_product TNone L q (dense_x tn xn gs) (dense_z tn zn gs).
+Proof. exact fast_product_is_dense. Qed.
+Theorem C15_fast_lpq_is_the_dense_kernel : forall tn L p q xn zn gs, (0 < p)%R -> length (transform tn xn) = length (transform tn zn) -> Forall group_ok gs ->
+  fast_lpq tn L p q xn zn gs = laplace_lpq TNone L p q (dense_x tn xn gs) (dense_z tn zn gs).
+Proof. exact fast_lpq_is_dense. Qed.
+(* the transformed one-hot expanded row IS the concatenation of the transformed numerical part and the selected code rows: block-diagonal assembly *)
+Theorem C15_block_diagonal_transform_acts_blockwise : forall blocks inputs, Forall2 block_ok inputs blocks ->
+  xmat (total_dout blocks) (concat inputs) (blockdiag blocks) = concat (map2 (fun x blk => xmat (snd blk) x (fst blk)) inputs blocks).
+Proof. exact xmat_blockdiag. Qed.
+Print Assumptions C15_fast_l2_is_the_dense_kernel_on_onehot_rows.
+Print Assumptions C15_fast_product_is_the_dense_kernel.
+Print Assumptions C15_fast_lpq_is_the_dense_kernel.
+Print Assumptions C15_block_diagonal_transform_acts_blockwise.
